@@ -41,7 +41,7 @@ SCALAR_KINDS = ["with", "update_attr", "transform_attr", "reset_attr", "update",
 
 
 def GATES(tier):
-    return [("relations_judged", 500)] + [(f"rel:{r}", 15) for r in ("M", "R1", "R2", "R3", "R4", "R5", "R6", "N")] + [(f"kind:{k}", 10) for k in SCALAR_KINDS]
+    return [("relations_judged", 500)] + [(f"rel:{r}", 15) for r in ("M", "R1", "R2", "R3", "R4", "R5", "R6", "N", "D")] + [(f"kind:{k}", 10) for k in SCALAR_KINDS]
 
 
 def oc(step):
@@ -192,8 +192,8 @@ def model_predict(world, recv, op, built_args, built_kwargs):
             except Exception:
                 return None
             post[n] = _reprepare(world, cname, n, new)
-        elif form == "attr_transforms" and t.kind == "spec":
-            base = pre[n]
+        elif form in ("attr_transforms", "fn+attr_transforms") and t.kind == "spec":
+            base = pre[n]  # the whole-value transforms used with attribute transforms hand back (a copy of) their input
             d = dict(base[2])
             for k, f in op["kwargs"].items():
                 if k.startswith("_"):
@@ -270,7 +270,7 @@ def run(ctx, params):
                 receivers = [i for i, x in enumerate(insts) if dr.class_name(world, x) is not None]
                 target = rng.choice(receivers)
                 cname = dr.class_name(world, insts[target])
-                rel = rng.choice(["M", "M", "R1", "R1", "R2", "R3", "R4", "R5", "R6", "N"])
+                rel = rng.choice(["M", "M", "R1", "R1", "R2", "R3", "R4", "R5", "R6", "N", "D"])
                 hk = rng.choice(SCALAR_KINDS)
                 validity = "valid" if rng.random() < 0.8 else rng.choice(["nonconf", "unknown_kw", "raising_cb"])
                 feats = {"rel": rel}
@@ -407,6 +407,29 @@ def run(ctx, params):
                             report("transform_vs_with", f"transform_{n}({fname}) {oc(s1)} but with_{n}({fname}(old)) {s2o}")
                         elif s1.outcome == "returned" and full_state(s1.value) != full_state(s2val):
                             report("transform_vs_with", f"transform_{n}({fname}) gives {safe_repr(s1.value, 90)} but with_{n}({fname}(old)) gives {safe_repr(s2val, 90)}")
+                elif rel == "D":
+                    # reset_<a> / reset / del restore what a freshly constructed instance holds
+                    import checks.c08 as c08
+
+                    attrs = world.decl.attrs_of(cname)
+                    which = rng.choice(["reset_attr", "reset", "del"])
+                    n = rng.choice(list(attrs))
+                    inplace = which == "del" or rng.random() < 0.5
+                    if which == "del":
+                        op = {"kind": "delattr", "target": target, "attr": n, "hkind": "delattr", "inplace": True}
+                    elif which == "reset":
+                        op = {"kind": "helper", "target": target, "name": "reset", "hkind": "reset", "args": [], "kwargs": {"_inplace": True} if inplace else {}, "inplace": inplace, "attr": None}
+                    else:
+                        op = {"kind": "helper", "target": target, "name": f"reset_{n}", "hkind": "reset_attr", "args": [], "kwargs": {"_inplace": True} if inplace else {}, "inplace": inplace, "attr": n}
+                    t1 = twin()
+                    st = dr.execute(world, t1, op, scopes=(), saturate=False)
+                    feats.update(hkind=op["hkind"], inplace=inplace, outcome=oc(st))
+                    if st.outcome == "returned":
+                        judged = True
+                        subject = st.value if (op["kind"] == "helper" and st.value is not None) else t1[target]
+                        has_init_false = any(not a.init for _o, a in attrs.values())
+                        if not has_init_false:
+                            c08.check_reset(ctx, world, t1, subject, cname, list(attrs) if which == "reset" else [n], op, history, case)
                 else:  # N: no-ops
                     which = rng.choice(["if_false", "unchanged", "missing_kw", "if_false_inplace"])
                     op = dr.gen_helper(world, rng, insts, target, hkind=hk, validity="valid", inplace=which == "if_false_inplace")
